@@ -12,6 +12,8 @@
 //!      anonymous variables, repeated clause variable names
 //!   4  cut-heavy: `!` at random positions of conjunctions and disjunctions, called predicates that cut,
 //!      later clauses that succeed / print
+//!   5  multiplicity and lookup: duplicate facts, ground goals provable several times, one functor with two
+//!      arities, clauses of two predicates interleaved, four- and five-goal conjunctions, repeated query variables
 //!
 //! The recorder runs in a worker process: a panic is recorded as a `panic` event, a dead worker
 //! (stack overflow, abort) as `crash`, a worker that makes no progress as `hang`; the trace
@@ -230,9 +232,42 @@ impl Gen {
         (Value::Array(prog), cx(f, vec![qa, qb]))
     }
 
+    // ---------------------------------------------------------------- family 5: multiplicity and lookup
+    /// duplicate facts, ground goals proved several times, one functor with two arities, four- and five-goal
+    /// conjunctions, clauses of two predicates interleaved, queries with a repeated variable or a constant
+    fn multiplicity(&mut self) -> (Value, Value) {
+        let mut prog: Vec<Value> = vec![];
+        let n1 = self.rng.gen_range(2..=5);
+        for _ in 0..n1 { let a = atom(self.pick(&ATOMS[..2])); prog.push(fact(cx("t", vec![a]))); }                    // duplicates likely
+        let n2 = self.rng.gen_range(2..=4);
+        for i in 0..n2 {
+            let (a, b) = (atom(self.pick(&ATOMS)), atom(self.pick(&ATOMS)));
+            prog.push(fact(cx("t", vec![a, b])));                                                                         // t/2 next to t/1
+            if i == 0 { let a = atom(self.pick(&ATOMS)); prog.push(fact(cx("u", vec![a]))); }                             // interleaved with another predicate
+        }
+        prog.push(fact(cx("u", vec![atom(self.pick(&ATOMS))])));
+        if self.rng.gen_bool(0.5) { prog.push(rule(cx("u", vec![var("$X")]), call(cx("t", vec![var("$X")])))); }
+        for _ in 0..self.rng.gen_range(1..=3) {
+            let k = self.rng.gen_range(2..=5);
+            let gs: Vec<Value> = (0..k).map(|_| match self.rng.gen_range(0..100) {
+                0..=29 => call(cx("t", vec![self.arg()])),
+                30..=54 => call(cx("t", vec![self.arg(), self.arg()])),
+                55..=74 => call(cx("u", vec![self.arg()])),
+                75..=84 => call(cx("t", vec![atom(self.pick(&ATOMS[..2]))])),                                             // a ground goal, provable more than once
+                85..=92 => bip("unify", vec![var(self.pick(&VARS)), self.arg()]),
+                _ => or(vec![call(cx("t", vec![atom(self.pick(&ATOMS[..2]))])), call(cx("u", vec![self.arg()]))]),
+            }).collect();
+            let h = match self.rng.gen_range(0..3) { 0 => cx("m", vec![var("$X"), var("$Y")]), 1 => cx("m", vec![var("$X"), var("$X")]), _ => cx("m", vec![var("$Y"), atom(self.pick(&ATOMS))]) };
+            prog.push(rule(h, and(gs)));
+        }
+        let query = match self.rng.gen_range(0..5) { 0 => cx("m", vec![var("$Q"), var("$W")]), 1 => cx("m", vec![var("$Q"), var("$Q")]), 2 => cx("m", vec![atom(self.pick(&ATOMS)), var("$W")]),
+                                                    3 => cx("t", vec![var("$Q"), var("$Q")]), _ => cx("u", vec![var("$Q")]) };
+        (Value::Array(prog), query)
+    }
+
     fn program(&mut self) -> (usize, Value, Value) {
-        let fam = match self.rng.gen_range(0..100) { 0..=29 => 0, 30..=49 => 1, 50..=64 => 2, 65..=84 => 3, _ => 4 };
-        let (p, q) = match fam { 0 => self.stratified(5), 1 => self.lists(), 2 => self.arith(), 3 => self.structured(), _ => self.stratified(22) };
+        let fam = match self.rng.gen_range(0..100) { 0..=24 => 0, 25..=41 => 1, 42..=54 => 2, 55..=71 => 3, 72..=84 => 4, _ => 5 };
+        let (p, q) = match fam { 0 => self.stratified(5), 1 => self.lists(), 2 => self.arith(), 3 => self.structured(), 4 => self.stratified(22), _ => self.multiplicity() };
         (fam, p, q)
     }
 }
